@@ -43,4 +43,19 @@ REGISTRY = {
         "entropy (gauge free), height_max, determine_n_emitters, emitter_sorted; solver circuits use exactly max-height "
         "emitters and emit each photon once; MC_GraphCut: entropy = GF(2) cut rank for every graph.",
         "", "DESIGN.md 6/C03"),
+    "C12": (
+        "TLA+ wire machine model-checked over all short edit histories; random edit histories on the real CircuitDAG "
+        "trace-validated by TLC on the complete projected structure after every edit",
+        "MC_CircuitDag explores all add / insert-at-compatible-pair / remove histories (3 registers, bounded ops/depth): "
+        "acyclic, compatibility rule sound. Real histories (add, insert_at, remove, replace, unwrap, group, "
+        "remove_identity, add register, illegal add) from empty / benchmark / solver circuits: after EVERY edit TLC checks "
+        "Acyclic, sources/sinks, WireIsPath, node_dict / edge_dict agreement, topological sequence, CompatSound on "
+        "find_incompatible_edges, register counts, and that the edit moved nothing else.",
+        "", "DESIGN.md 6/C12"),
+    "C18": (
+        "metric definitions written in TLA+ over the projected operation list; every metric class evaluated by the real "
+        "code (default and explicit penalty) and compared by TLC",
+        "Random emission-style circuits with wrappers / identities / resets, benchmark circuits and solver outputs; all 8 "
+        "metric classes x default / affine penalty + register_depth; InputUnchanged.",
+        "", "DESIGN.md 6/C18"),
 }
